@@ -93,7 +93,7 @@ def full_range_index(crate, body_name, term):
 def std_position_ok(crate, body_name, callee, term):
     """A position-taking std call that cannot panic by construction:
        chunks* / windows / step_by with a non-zero literal size; Vec::insert(0, _); a position that is the literal 0 for
-       split_at / rotate; copy_from_slice / clone_from_slice into a fixed-size array under a `len == N` test of the source
+       split_at / rotate; split_at(k) of an immutable local slice under a `len == N` / `len >= N` guard with N >= k; copy_from_slice / clone_from_slice into a fixed-size array under a `len == N` test of the source
        (decided on the HIR call node at the same source line)."""
     b = crate.bodies.get(body_name) or {}
     last = callee.split("::")[-1]
@@ -113,7 +113,46 @@ def std_position_ok(crate, body_name, callee, term):
     if last in ("insert",) and "Vec" in callee:
         return bool(args) and lit(args[0]) == 0
     if last in ("split_at", "split_at_mut", "rotate_left", "rotate_right", "split_off") and "str" not in callee and "String" not in callee:
-        return bool(args) and lit(args[0]) == 0
+        if bool(args) and lit(args[0]) == 0:
+            return True
+        # a literal position k on an immutable local slice, inside a match arm / `if` whose guard has the conjunct
+        # `<that local>.len() == N` or `>= N` with N >= k
+        k = lit(args[0]) if args else None
+        r = n.get("recv")
+        while r and r.get("k") in ("AddrOf", "Deref"):
+            r = r.get("e")
+        if k is None or last not in ("split_at", "split_at_mut") or not r or r.get("k") != "Path" or r.get("res") != "local":
+            return False
+        hid = r.get("hid")
+        if hid in _assigned_locals(b["hir"]):
+            return False
+
+        def conj(e):
+            if e.get("k") == "Binary" and e.get("op") == "&&":
+                return conj(e["l"]) + conj(e["r"])
+            return [e]
+
+        def bounds(e):
+            for c_ in conj(e):
+                if c_.get("k") == "Binary" and c_.get("op") in ("==", ">=") and c_["l"].get("k") == "MethodCall" and c_["l"].get("name") == "len" \
+                        and (c_["l"].get("callee") or "").endswith(("<impl [T]>::len", "Vec::len")) and lit(c_["r"]) is not None:
+                    lr = c_["l"].get("recv")
+                    while lr and lr.get("k") in ("AddrOf", "Deref"):
+                        lr = lr.get("e")
+                    if lr and lr.get("k") == "Path" and lr.get("hid") == hid and lit(c_["r"]) >= k:
+                        return True
+            return False
+        for node, ps in common.hir_walk_p(b["hir"]):
+            if node is n:
+                for p_ in ps:
+                    if p_.get("k") == "Match":
+                        for a in p_["arms"]:
+                            if a.get("guard") and any(x is n for x in common.hir_walk(a["body"])) and bounds(a["guard"]):
+                                return True
+                    if p_.get("k") == "If" and p_["c"].get("k") != "LetCond" and any(x is n for x in common.hir_walk(p_["t"])) and bounds(p_["c"]):
+                        return True
+                return False
+        return False
     if last in ("copy_from_slice", "clone_from_slice"):
         import re as _re
         m = _re.search(r"\[\w+; (\d+)\]", (n.get("recv") or {}).get("ty", ""))
